@@ -1021,6 +1021,9 @@ struct Scanner {
     addr: std::net::SocketAddr,
     conn: Option<Conn>,
     wd: Duration,
+    /// send request targets in absolute-form ("GET http://host/path?query"), which a
+    /// server must accept and treat like the origin-form
+    absolute_form: bool,
 }
 
 enum Fetch {
@@ -1048,7 +1051,11 @@ impl Scanner {
                 }
             }
             let conn = self.conn.as_mut().unwrap();
-            let req = Req::new("GET", target).encode();
+            let req = if self.absolute_form {
+                Req::new("GET", &format!("http://vmon.test{target}")).encode()
+            } else {
+                Req::new("GET", target).encode()
+            };
             if conn.send(&req).is_err() {
                 self.conn = None;
                 if attempt == 0 {
@@ -1125,6 +1132,7 @@ impl Scanner {
         // client habits that must not matter
         let enc_random = rng.chance(1, 4);
         let fresh_conn_each_page = rng.chance(1, 8);
+        self.absolute_form = rng.chance(1, 6);
         let limit_first = rng.bool();
         let _hold_wide = if s.order.wide() { Some(acquire_wide(s.n)) } else { None };
         let _hold = if s.order.wide() { None } else { Some(acquire(s.key())) };
@@ -1408,6 +1416,7 @@ pub fn run_shard(seed: u64, shard: u64, nshards: u64, quick: bool) -> Report {
             addr: run.addr,
             conn: None,
             wd: Duration::from_secs(60),
+            absolute_form: false,
         };
         for s in group {
             sc.scan(s);
